@@ -22,3 +22,5 @@ def run(ctx):
         gsm.run(ctx, "C07", 100 if q else 1000)
         from .. import alac           # CAF/ALAC: packet staging, pakt / kuki chunks, read / seek around the codec core (lean/SfModel/AlacFile.lean)
         alac.run(ctx, "C07", 96 if q else 960)
+        from .. import small4         # SDS whole-file sessions: header updates flush and re-seek over the partly filled packet (lean/SfModel/SdsFile.lean)
+        small4.run_sds(ctx, found=bool(ctx.violations))
